@@ -27,12 +27,16 @@ def generate(seed, tier="quick", mode=None, **kw):
     r = random.Random(seed)
     mode = mode or r.choice(["c08", "c07"])
     feats = ["pwd"] + [f for f in ("ip", "words", "as") if r.random() < 0.25]
-    o = GC.gen_opts(r, features=feats, cli_safe=True, j9=True)
+    # C07 pairs may use a salt whose first character is outside the Juniper alphabet: today a $9$ line then fails
+    # the file (C14's subject), identically in both worlds
+    o = GC.gen_opts(r, features=feats, cli_safe=True, j9=(mode != "c07" or r.random() > 0.1))
     if "words" in feats:
         GC.add_words(r, o, n=r.randint(1, 2))
         o["words"] = [w for w in o["words"] if len(w) >= 5] or None
     nid = r.randint(2, 6)
-    secrets = GC.gen_secrets(r, nid, words=o["words"] or ())
+    odd_salt = bool(o["salt"]) and o["salt"][0] not in G.J9_ALPHA or o["salt"] == ""
+    secrets = GC.gen_secrets(r, nid, classes=(["j9p", "j9p", "c9", "j9p-num", "text", "md5"] if odd_salt else None),
+                             words=o["words"] or ())
     ctx = GC.make_ctx(r, o)
     nfiles = r.randint(1, 6)
     paths, dirs, _ = GC.gen_tree(r, nfiles, hidden=False, dirs=r.random() < 0.5)
